@@ -721,7 +721,8 @@ Proof.
   - destruct (h_nb h <=? b); [cbn [fst]; now apply Hexp|]. destruct rej; [cbn [fst]; now apply Hexp|].
     destruct (register h c cn b KClient u) as [h1 o1] eqn:Hr. cbn [fst]. rewrite (fst_eq _ _ _ Hr). apply rel_register.
   - destruct (v2_check (h_nb h) b t); [apply rel_register|cbn [fst]; now apply Hexp].
-  - destruct (throttled h (c_addr cn) ACT_INTERNAL); [cbn [fst]; now apply Hexp|].
+  - destruct (N.eqb tok 4); [cbn [fst]; now apply Hexp|].
+    destruct (throttled h (c_addr cn) ACT_INTERNAL); [cbn [fst]; now apply Hexp|].
     destruct (negb (N.eqb tok 0)).
     { cbn [fst]. apply Hexp. apply rel_of_rel0, rel0_eq; reflexivity. }
     destruct (h_nb h <=? b).
